@@ -1,6 +1,11 @@
 package props
 
 import (
+	"fmt"
+	"go/ast"
+	"go/token"
+	"go/types"
+
 	"d2verif/internal/core"
 )
 
@@ -9,10 +14,10 @@ func init() {
 		ID:       "C42",
 		Title:    "Editor support returns exact reference ranges and board positions",
 		Patterns: []string{"./d2lsp", "./d2ast"},
-		Explanation: "Decides the crash-freedom clause only: every index and slice expression in d2lsp (completion, board-at-position and reference lookup) is in range for any text and any line/column, including negative ones — by an idiom of the bounds engine (dominating length tests, clamped parameters, range keys, searches tested against -1, case-constant lengths) or by a reviewed invariant.",
-		NotCovered: "exactness of the reference ranges and of the board reported for a position (a comparison with the source text); nil dereferences of AST boxes (elements of parsed key paths are non-empty by the parser rule C01.unbox)",
+		Explanation: "Decides two clauses. Crash freedom: every index and slice expression in d2lsp (completion, board-at-position and reference lookup) is in range for any text and any line/column, including negative ones — by an idiom of the bounds engine (dominating length tests, clamped parameters, range keys, searches tested against -1, case-constant lengths) or by a reviewed invariant. Board at position: the predicate by which getBoardPathAtPosition decides that a block contains the queried position touches its inputs only through comparisons of Line, Column and Byte, so its verdict depends only on the order type of (pos, Start, End); the check interprets the predicate's source (and Position.Before's) over a representative of every order type and requires Start <= pos < End in (line, column) order, with the position's byte offset neutralised by every caller.",
+		NotCovered: "exactness of the reference ranges (a comparison with the source text) and completeness of the declarations returned; that the recursion of board-at-position returns the innermost board; nil dereferences of AST boxes (elements of parsed key paths are non-empty by the parser rule C01.unbox)",
 		Trust:      []string{"the reviewed invariants of the exceptions table"},
-		Technique:  "static analysis: bounds-idiom discharge over the typed AST with go/cfg guard dominance",
+		Technique:  "static analysis: bounds-idiom discharge over the typed AST with go/cfg guard dominance; order-type abstract interpretation of a comparison-only predicate",
 		Run:        runC42,
 	})
 }
@@ -40,4 +45,160 @@ func runC42(c *core.Check) {
 		}
 	}
 	c.Floor("C42.bounds", 12)
+	runC42Containment(c)
+}
+
+// runC42Containment decides the "block contains the position" test of board-at-position by order types.
+func runC42Containment(c *core.Check) {
+	c.Rule("C42.containment", "the test that a block contains the queried position is Start <= pos < End in (line, column) order, for every order type of the three positions")
+	pk := c.P.Pkg("d2lsp")
+	isNamed := func(t types.Type, name string) bool {
+		n, ok := t.(*types.Named)
+		return ok && n.Obj().Name() == name && n.Obj().Pkg() != nil && n.Obj().Pkg().Path() == "oss.terrastruct.com/d2/d2ast"
+	}
+	npred := 0
+	for _, fi := range c.P.Funcs(pk) {
+		if fi.Decl.Body == nil {
+			continue
+		}
+		info := fi.Pkg.TypesInfo
+		ast.Inspect(fi.Decl.Body, func(n ast.Node) bool {
+			lit, ok := n.(*ast.FuncLit)
+			if !ok {
+				return true
+			}
+			sig, _ := info.TypeOf(lit).(*types.Signature)
+			if sig == nil || sig.Params().Len() != 1 || sig.Results().Len() != 1 || !isNamed(sig.Params().At(0).Type(), "Range") {
+				return true
+			}
+			if b, ok := sig.Results().At(0).Type().Underlying().(*types.Basic); !ok || b.Kind() != types.Bool {
+				return true
+			}
+			if len(lit.Type.Params.List) != 1 || len(lit.Type.Params.List[0].Names) != 1 {
+				return true
+			}
+			rangeObj := info.Defs[lit.Type.Params.List[0].Names[0]]
+			// the free Position variable of the literal
+			var posObj types.Object
+			multi := false
+			ast.Inspect(lit.Body, func(m ast.Node) bool {
+				id, ok := m.(*ast.Ident)
+				if !ok {
+					return true
+				}
+				o, ok := info.Uses[id].(*types.Var)
+				if !ok || o.IsField() || !isNamed(o.Type(), "Position") {
+					return true
+				}
+				if o.Pos() >= lit.Pos() && o.Pos() < lit.End() {
+					return true
+				}
+				if posObj != nil && posObj != o {
+					multi = true
+				}
+				posObj = o
+				return true
+			})
+			if posObj == nil || multi {
+				return true
+			}
+			npred++
+			key := fmt.Sprintf("containment:%s", fname(fi))
+			neutral, why := posByteNeutralised(c, fi, posObj)
+			counter, undecided, norders := containmentVerdict(c.P, info, lit.Body.List, rangeObj, posObj, neutral)
+			switch {
+			case undecided != "":
+				if !neutral && why != "" {
+					undecided += " (" + why + ")"
+				}
+				c.Fail("C42.containment", key, lit.Pos(), "the containment test could not be decided by order types: "+undecided)
+			case counter != "":
+				c.Fail("C42.containment", key, lit.Pos(), "the containment test is not Start <= pos < End: "+counter+"; the board reported for such a cursor position is not the innermost board containing it")
+			default:
+				c.Pass("C42.containment", key, lit.Pos(), fmt.Sprintf("agrees with Start <= pos < End on all %d order types of (pos, Start, End) with Start <= End (Position.Before interpreted from its source)", norders))
+			}
+			return true
+		})
+	}
+	if npred == 0 {
+		c.Fail("C42.containment", "containment:predicates", token.NoPos, "no func(d2ast.Range) bool predicate over a position found in d2lsp")
+	}
+}
+
+// posByteNeutralised: the position variable is a parameter of fi, and every call of fi from another function
+// passes a variable whose Byte field was set to -1 on every path to the call; recursive calls pass it on unchanged.
+func posByteNeutralised(c *core.Check, fi *core.FuncInfo, posObj types.Object) (bool, string) {
+	pidx := -1
+	i := 0
+	for _, f := range fi.Decl.Type.Params.List {
+		for _, nm := range f.Names {
+			if fi.Pkg.TypesInfo.Defs[nm] == posObj {
+				pidx = i
+			}
+			i++
+		}
+	}
+	if pidx < 0 {
+		return false, "the position is not a parameter of the enclosing function"
+	}
+	ncalls := 0
+	for _, caller := range c.P.Funcs(fi.Pkg) {
+		if caller.Decl.Body == nil {
+			continue
+		}
+		info := caller.Pkg.TypesInfo
+		var fl *core.Flow
+		bad := ""
+		ast.Inspect(caller.Decl.Body, func(n ast.Node) bool {
+			call, ok := n.(*ast.CallExpr)
+			if !ok || core.CalleeOf(info, call) != fi.Obj || pidx >= len(call.Args) {
+				return true
+			}
+			arg, ok := ast.Unparen(call.Args[pidx]).(*ast.Ident)
+			if !ok {
+				bad = "a caller passes " + exprStr(call.Args[pidx])
+				return true
+			}
+			if caller == fi {
+				if info.Uses[arg] != posObj {
+					bad = "the recursive call passes another position"
+				}
+				return true
+			}
+			ncalls++
+			if fl == nil {
+				fl = core.NewFlow(caller.Pkg, caller.Decl.Body)
+			}
+			set := false
+			ast.Inspect(caller.Decl.Body, func(m ast.Node) bool {
+				as, ok := m.(*ast.AssignStmt)
+				if !ok || len(as.Lhs) != 1 || len(as.Rhs) != 1 || as.Tok != token.ASSIGN {
+					return true
+				}
+				sel, ok := as.Lhs[0].(*ast.SelectorExpr)
+				if !ok || sel.Sel.Name != "Byte" {
+					return true
+				}
+				id, ok := sel.X.(*ast.Ident)
+				if !ok || info.Uses[id] != info.Uses[arg] {
+					return true
+				}
+				if v, ok := intConst(info, as.Rhs[0]); ok && v == -1 && fl.DominatesNode(as, call) {
+					set = true
+				}
+				return true
+			})
+			if !set {
+				bad = fname(caller) + " calls it without setting " + arg.Name + ".Byte = -1 first"
+			}
+			return true
+		})
+		if bad != "" {
+			return false, bad
+		}
+	}
+	if ncalls == 0 {
+		return false, "no caller found"
+	}
+	return true, ""
 }
